@@ -4,6 +4,7 @@ package main
 
 import (
 	"crypto/sha256"
+	"encoding/json"
 	"encoding/hex"
 	"fmt"
 	"strconv"
@@ -79,6 +80,16 @@ func parseArg(tok string) (*pb.Arg, error) {
 		if v == "~" {
 			v = ""
 		}
+		if strings.HasPrefix(v, "@") { // @<account or contract name> : its address
+			name, rest := v[1:], ""
+			if j := strings.Index(name, "-"); j >= 0 {
+				name, rest = name[:j], name[j:]
+			}
+			if c, ok := contractAddrs[name]; ok {
+				return pb.String(c.Address().String() + rest), nil
+			}
+			return pb.String(acct(name).addr.String() + rest), nil
+		}
 		return pb.String(strings.ReplaceAll(v, "\\_", " ")), nil
 	case "u":
 		x, err := strconv.ParseUint(v, 10, 64)
@@ -94,6 +105,38 @@ func parseArg(tok string) (*pb.Arg, error) {
 			return &pb.Arg{Type: pb.Arg_I32, Value: []byte(v)}, nil
 		}
 		return pb.Int32(int32(x)), nil
+	case "f":
+		return &pb.Arg{Type: pb.Arg_F64, Value: []byte(v)}, nil
+	case "addrs": // addrs:<name>,<name>,... : JSON list of the accounts' / contracts' addresses as a bytes argument
+		var as []string
+		for _, nm := range strings.Split(v, ",") {
+			if nm == "" {
+				continue
+			}
+			if c, ok := contractAddrs[nm]; ok {
+				as = append(as, c.Address().String())
+			} else {
+				as = append(as, acct(nm).addr.String())
+			}
+		}
+		b, _ := json.Marshal(as)
+		return pb.Bytes(b), nil
+	case "ibtp": // ibtp:<from>,<to>,<index>,<type>,<timeout> : marshalled IBTP as a bytes argument
+		p := strings.Split(v, ",")
+		if len(p) != 5 {
+			return nil, fmt.Errorf("bad ibtp arg")
+		}
+		idx, _ := strconv.ParseUint(p[2], 10, 64)
+		typ, ok := ibtpTypes[p[3]]
+		if !ok {
+			return nil, fmt.Errorf("bad ibtp type")
+		}
+		to, _ := strconv.ParseInt(p[4], 10, 64)
+		b, err := (&pb.IBTP{From: fullSvc(p[0]), To: fullSvc(p[1]), Index: idx, Type: typ, TimeoutHeight: to}).Marshal()
+		if err != nil {
+			return nil, err
+		}
+		return pb.Bytes(b), nil
 	case "x":
 		b, err := hex.DecodeString(v)
 		if err != nil {
